@@ -10,6 +10,7 @@ import traceback
 HANDLERS = {
     "timer_py": ("harness.py.timer_cmd", "run"),
     "timer_emu": ("harness.py.timer_cmd", "run_emu"),
+    "timer_wait": ("harness.py.timer_cmd", "run_wait"),
     "regs_py": ("harness.py.regs_cmd", "run"),
     "dec": ("harness.py.dec_cmd", "run"),
     "rt": ("harness.py.dec_cmd", "run_rt"),
